@@ -16,7 +16,7 @@
 (*   - the expected verdicts: exhaustive, redundant arms, first arm and    *)
 (*     bindings, and the defect-family keys.                               *)
 (* Environment: TIER (quick|thorough), MODE (enum|sim), SHARD, NSHARD,     *)
-(* NSIM (batches per behaviour in sim mode), CALLS (0|1), OUTDIR.          *)
+(* NCHAIN, CALLS (0|1), OUTDIR.                                            *)
 (***************************************************************************)
 EXTENDS AbraMatch, Integers, SequencesExt, Json, IOUtils, TLCExt
 
@@ -44,7 +44,7 @@ TyU == << [n |-> "bool", ty |-> Bool], [n |-> "void", ty |-> Void], [n |-> "int"
           [n |-> "Color", ty |-> Color], [n |-> "Shape", ty |-> Shape], [n |-> "Nm", ty |-> Nm], [n |-> "Ev", ty |-> Ev],
           [n |-> "Pt", ty |-> Pt], [n |-> "Wr", ty |-> Wr],
           [n |-> "optbool", ty |-> OptB], [n |-> "resboolint", ty |-> ResBI], [n |-> "optboolbool", ty |-> OptBB],
-          [n |-> "optoptbool", ty |-> OptOptB], [n |-> "optColor", ty |-> OptColor],
+          [n |-> "optoptbool", ty |-> OptOptB],
           [n |-> "optbool_bool", ty |-> Tup(<<OptB, Bool>>)], [n |-> "Shape_float", ty |-> Tup(<<Shape, FltT>>)],
           [n |-> "boolbool_bool", ty |-> Tup(<<Tup(<<Bool, Bool>>), Bool>>)], [n |-> "string_int", ty |-> Tup(<<StrT, IntT>>)],
           [n |-> "Color_Color", ty |-> Tup(<<Color, Color>>)] >>
@@ -58,8 +58,8 @@ Prof == IF Thorough
         ELSE [int |-> <<"0", "1">>, float |-> <<"1.0", "1.00", "2.5">>, string |-> <<"a", "b">>, leafors |-> TRUE]
 Depth == IF Thorough THEN 2 ELSE 1
 MaxBase == IF Thorough THEN 6 ELSE 4       \* top-level or-patterns for types with at most this many binder-free base patterns
-Cap2 == IF Thorough THEN 12000 ELSE 800
-Cap3 == IF Thorough THEN 3400 ELSE 220
+Cap2 == IF Thorough THEN 4000 ELSE 800
+Cap3 == IF Thorough THEN 1100 ELSE 220
 
 Pool == [ti \in 1..NT |-> SetToSeq(Pats(TyU[ti].ty, Depth, Prof, MaxBase))]
 Vals == [ti \in 1..NT |-> Values(TyU[ti].ty, Prof)]
